@@ -497,6 +497,8 @@ func (db *MultiBucketBackend) PutObject(
 	// Replace rather than truncate: a reader that opened the previous object
 	// before this upload keeps reading the previous bytes.
 	if err := db.bucketFs.Remove(objectFilePath); err != nil && !os.IsNotExist(err) {
+		// The directory chain may have been created just now:
+		removeEmptyDirs(db.bucketFs, bucketName, filepath.ToSlash(objectDir))
 		return result, err
 	}
 
